@@ -41,7 +41,19 @@ def api_add(obj, key, alt=False, n=None, force=None, tracked=False, hasher=None,
         args.append(n)
     if force:
         args.append(True)
-    return obj.add_alt(*args)
+    mine = list(hs)
+    r = obj.add_alt(*args)
+    _caller_list_intact(hs, mine, "add_alt", obj)
+    return r
+
+
+def _caller_list_intact(hs, mine, what, obj):
+    # the list belongs to the caller, who may hand the same list on to further structures (of other sizes)
+    if hs != mine:
+        from ..core import Violation
+
+        raise Violation("caller_hashes_modified", f"{type(obj).__name__}.{what} rewrote the hash list it was given: "
+                                                  f"{mine[:4]} -> {hs[:4]}", {"class": type(obj).__name__, "op": what})
 
 
 def api_remove(obj, key, n, alt=False, tracked=False):
@@ -49,7 +61,10 @@ def api_remove(obj, key, n, alt=False, tracked=False):
         return obj.remove(key, n)
     hs = obj.hashes(key)
     args = ([key] if tracked else []) + [hs] + ([n] if n != 1 else [])
-    return obj.remove_alt(*args)
+    mine = list(hs)
+    r = obj.remove_alt(*args)
+    _caller_list_intact(hs, mine, "remove_alt", obj)
+    return r
 
 
 def api_check(obj, key, alt=False, hasher=None, longer=0):
@@ -59,7 +74,10 @@ def api_check(obj, key, alt=False, hasher=None, longer=0):
     hs = h.hashes(key)
     if longer:
         hs = h.hashes(key, len(hs) + longer)
-    return obj.check_alt(hs)
+    mine = list(hs)
+    r = obj.check_alt(hs)
+    _caller_list_intact(hs, mine, "check_alt", obj)
+    return r
 
 
 class Env:
